@@ -52,6 +52,7 @@ NoId   == <<0, -1>>
 
 Abs(n)      == IF n < 0 THEN -n ELSE n
 Max2(a, b)  == IF a >= b THEN a ELSE b
+Min2(a, b)  == IF a <= b THEN a ELSE b
 MaxOf(S, d) == IF S = {} THEN d ELSE CHOOSE x \in S : \A y \in S : x >= y
 MinOf(S, d) == IF S = {} THEN d ELSE CHOOSE x \in S : \A y \in S : x <= y
 IdGE(a, b)  == a[1] > b[1] \/ (a[1] = b[1] /\ a[2] >= b[2])   \* HintID.isLarger: a >= b
@@ -843,7 +844,12 @@ G_SrcEnd ==
          clear == s # gc.dst
          newgc == IF s + 1 >= bk.nextgc THEN s + 1 ELSE bk.nextgc
      IN /\ chk' = IF clear THEN [chk EXCEPT ![s] = FreshChunk] ELSE chk
-        /\ disk' = [IF clear THEN [disk EXCEPT !.exists[s] = FALSE, !.data[s] = <<>>] ELSE disk
+        \* repaired (finding F6): a file that has just been rewritten in place loses its stale tail NOW
+        \* (truncateRewritten), not at the end of the pass; mutant "F6" = the old code
+        /\ disk' = [IF clear THEN [disk EXCEPT !.exists[s] = FALSE, !.data[s] = <<>>]
+                    ELSE IF chk[s].rewriting /\ chk[s].wHead < chk[s].size /\ ~Mut("F6")
+                      THEN [disk EXCEPT !.data[s] = SubSeq(@, 1, Min2(chk[s].wHead, Len(@)))]
+                    ELSE disk
                       EXCEPT !.nextgcf = IF s + 1 >= bk.nextgc THEN s + 1 ELSE @]
         /\ bk' = [bk EXCEPT !.nextgc = newgc]
         /\ gc' = [gc EXCEPT !.src = s + 1]
@@ -917,7 +923,14 @@ CheckHintWithData(h, d, c) ==
            covered == MaxOf({fs[i].datasize : i \in 1..Len(fs)}, 0)
            filesp == [i \in 1..Len(fs) |-> [items |-> <<>>, maxoff |-> fs[i].datasize, isfile |-> TRUE]]
            h1 == [h EXCEPT !.splits[c] = filesp \o <<FreshSplit>>]
-       IN IF covered < size
+           \* repaired (finding F11): hints that claim more data than the file holds are dropped and
+           \* rebuilt from the data file; mutant "F11" = the old code, which trusted them
+           ahead == covered > size /\ ~Mut("F11")
+           h0 == [h EXCEPT !.splits[c] = <<FreshSplit>>, !.lastTS[c] = FALSE]
+           d0 == [d EXCEPT !.hintf[c] = <<>>]
+       IN IF ahead
+            THEN LET fd == FeedHints(h0, d0, c, ScanAll(d.data[c], 0)) IN TryDump(fd.h, fd.d, c, TRUE)
+          ELSE IF covered < size
             THEN LET fd == FeedHints(h1, d1, c, ScanAll(d.data[c], covered)) IN
                  TryDump(fd.h, fd.d, c, TRUE)
             ELSE [h |-> h1, d |-> d1]
